@@ -153,7 +153,7 @@ PROPS['C08'] = {
     'trust': ['ASSUMED contract of <f64 as FromStr>::from_str (grammar from the std documentation; stub in kani/scalar_harness.rs)'],
 }
 
-LOADER_TRUST = ['stand-ins in contracts/prelude_loader.vrs (ASSUMED models, A5): saphyr_parser::{Event, Span, ScalarStyle, Tag, Parser, SpannedEventReceiver}, saphyr::Yaml / Mapping, hashlink::LinkedHashMap (insert: append, or keep the first key, replace the value and move to the back - from the 0.10 source), vstd specs of Vec / BTreeMap / Option',
+LOADER_TRUST = ['stand-ins in contracts/prelude_loader.vrs (ASSUMED models, A5): saphyr_parser::{Event, Span, ScalarStyle, Tag, Parser, SpannedEventReceiver}, saphyr::Yaml / Mapping, hashlink::LinkedHashMap (insert: append, or keep the first key, replace the value and move to the back - from the 0.10 source, also stated as the one term lhm_insert; entry + Entry::or_insert: a vacant entry appends, an occupied one keeps key, value and place - not called by the unchanged loader, modelled so that a loader that does is judged), LoadableYamlNode::treeify / lemma_treeify (a definitional name for the pairs of a map read as trees), vstd specs of Vec / BTreeMap / Option',
                 'ASSUMED of every node type (trait proof obligations without body): a clone denotes the same tree; keys compare equal exactly when they denote the same tree; the key made from a node denotes the node\'s tree',
                 'the contracts of the LoadableYamlNode methods (from_bare_yaml, is_*, sequence_mut, mapping_mut, take, with_span) bind the four node types; their implementations are macro-generated / hand-written outside this unit and are only checked at leaf level under C19',
                 'recv_pre (the event is admissible in the current nesting) is owed by the producer: Parser::load is verified in unit `parser` to emit a well-nested sentence (C02), but the correspondence between its grammar configuration and the loader\'s stack is by inspection, not mechanised',
